@@ -418,7 +418,7 @@ def jobs(unit, tier, only=None):
                 out.append(Job('c13_%s_convert_n%d' % (tag, n), 'convert(w%d%s)' % (W, ',grouped' if grouped else ''),
                                p + 'convert_contract', make_build(unit, W, grouped, 'convert', n, 0),
                                backend=arith if (W >= 32 and n >= 5) else 'sat',
-                               timeout=600 if big else 300, instance={'width': W, 'result_len': n, 'grouped': grouped}))
+                               timeout=900, instance={'width': W, 'result_len': n, 'grouped': grouped}))
                 if tier == 'thorough' and W >= 32 and n >= 5:
                     # second solver on the arithmetic obligations: both must discharge them
                     out.append(Job('c13_%s_convert_n%d_cvc5' % (tag, n), 'convert(w%d%s)' % (W, ',grouped' if grouped else ''),
@@ -426,17 +426,17 @@ def jobs(unit, tier, only=None):
                                    timeout=1800, instance={'width': W, 'result_len': n, 'grouped': grouped, 'cross_check': 'cvc5'}))
                 out.append(Job('c13_%s_utos_n%d' % (tag, n), 'uintNNtoString(char*,v)', p + 'utos_contract',
                                make_build(unit, W, grouped, 'utos', n, 0), backend='sat',
-                               timeout=600 if big else 300, instance={'width': W, 'digits': n, 'grouped': grouped}))
+                               timeout=900, instance={'width': W, 'digits': n, 'grouped': grouped}))
                 if n <= NEG_MAXDIG[W]:
                     out.append(Job('c13_%s_negtos_n%d' % (tag, n), 'intNNnegToString(char*,v)', p + 'negtos_contract',
                                    make_build(unit, W, grouped, 'negtos', n, 2), backend='sat',
-                                   timeout=600 if big else 300, instance={'width': W, 'digits': n, 'grouped': grouped}))
+                                   timeout=900, instance={'width': W, 'digits': n, 'grouped': grouped}))
                     out.append(Job('c13_%s_itos_neg_n%d' % (tag, n), 'intNNtoString(char*,v)', p + 'itos_contract',
-                                   make_build(unit, W, grouped, 'itos', n, 2), backend='sat', timeout=300,
+                                   make_build(unit, W, grouped, 'itos', n, 2), backend='sat', timeout=900,
                                    instance={'width': W, 'digits': n, 'sign': '-', 'grouped': grouped}))
                 if n <= POS_MAXDIG[W]:
                     out.append(Job('c13_%s_itos_pos_n%d' % (tag, n), 'intNNtoString(char*,v)', p + 'itos_contract',
-                                   make_build(unit, W, grouped, 'itos', n, 1), backend='sat', timeout=300,
+                                   make_build(unit, W, grouped, 'itos', n, 1), backend='sat', timeout=900,
                                    instance={'width': W, 'digits': n, 'sign': '+', 'grouped': grouped}))
             # std::string variants + round trip cost 15-30 s per instance (heap-backed stand-in string under dfcc): the quick
             # tier takes the digit counts where the hand-unrolled code changes shape (1, first grouped length, the longest
@@ -465,13 +465,13 @@ def jobs(unit, tier, only=None):
             # contracts), std::string overloads for the shortest texts
             for n in range(1, M + 1):
                 out.append(Job('c13_%s_dutos_n%d' % (tag, n), fn + '(char*, uintNN_t)', p + 'utos_contract', make_build(unit, W, grouped, 'dutos', n, 0),
-                               backend='sat', timeout=300, instance={'width': W, 'digits': n, 'grouped': grouped, 'dispatch': True}))
+                               backend='sat', timeout=900, instance={'width': W, 'digits': n, 'grouped': grouped, 'dispatch': True}))
                 if n <= NEG_MAXDIG[W]:
                     out.append(Job('c13_%s_ditos_neg_n%d' % (tag, n), fn + '(char*, intNN_t)', p + 'itos_contract', make_build(unit, W, grouped, 'ditos', n, 2),
-                                   backend='sat', timeout=300, instance={'width': W, 'digits': n, 'sign': '-', 'grouped': grouped, 'dispatch': True}))
+                                   backend='sat', timeout=900, instance={'width': W, 'digits': n, 'sign': '-', 'grouped': grouped, 'dispatch': True}))
                 if n <= POS_MAXDIG[W]:
                     out.append(Job('c13_%s_ditos_pos_n%d' % (tag, n), fn + '(char*, intNN_t)', p + 'itos_contract', make_build(unit, W, grouped, 'ditos', n, 1),
-                                   backend='sat', timeout=300, instance={'width': W, 'digits': n, 'sign': '+', 'grouped': grouped, 'dispatch': True}))
+                                   backend='sat', timeout=900, instance={'width': W, 'digits': n, 'sign': '+', 'grouped': grouped, 'dispatch': True}))
             out.append(Job('c13_%s_ditos_zero' % tag, fn + '(char*, intNN_t)', p + 'itos_contract', make_build(unit, W, grouped, 'ditos', 1, 0),
                            backend='sat', timeout=120, instance={'width': W, 'value': 0, 'grouped': grouped, 'dispatch': True}))
             uw = M + (M - 1) // 3 + 8
